@@ -37,6 +37,7 @@ type concCfg struct {
 	Closer    string `json:"closer"`    // close | closenow | ctx | peerclose | none
 	PeerEcho  string `json:"peerecho"`  // early | late | never
 	PeerPongs string `json:"peerpongs"` // normal | reorder | dup | withhold | foreign
+	Closer2   string `json:"closer2"`   // a second, concurrent closer: close | closenow | ""
 	WriteCap  int    `json:"writecap"`  // transport buffer for library writes (0 = unbounded)
 	Yield     bool   `json:"yield"`     // Gosched at hooks
 }
@@ -446,8 +447,22 @@ func runConc(cfg concCfg, rep *Report, tr *ws.Tracer) *concRun {
 		}
 		closeDur = time.Since(t0)
 	}()
+	closer2Done := make(chan struct{})
+	go func() {
+		defer close(closer2Done)
+		if cfg.Closer2 == "" || cfg.Closer == "none" {
+			return
+		}
+		// a second Close/CloseNow while the first closer may still be inside its handshake
+		time.Sleep(time.Duration(rng.Intn(2500)) * time.Microsecond)
+		if cfg.Closer2 == "close" {
+			c.Close(websocket.StatusGoingAway, "second")
+		} else {
+			c.CloseNow()
+		}
+	}()
 	done := make(chan struct{})
-	go func() { wg.Wait(); <-closerDone; close(done) }()
+	go func() { wg.Wait(); <-closerDone; <-closer2Done; close(done) }()
 	select {
 	case <-done:
 	case <-time.After(12 * time.Second):
@@ -546,6 +561,7 @@ func genConcCfg(seed int64, i int) concCfg {
 		Closer:    pick("close", "close", "closenow", "ctx", "peerclose", "none"),
 		PeerEcho:  pick("early", "early", "late", "never"),
 		PeerPongs: pick("normal", "normal", "foreign", "withhold", "dup"),
+		Closer2:   pick("", "", "closenow", "close"),
 		Yield:     rng.Intn(2) == 0,
 	}
 	if rng.Intn(3) == 0 {
